@@ -54,6 +54,8 @@ class DeblendMachine(Machine):
             'entry': 'finder' if rng.chance(0.15) else 'deblend',
             'label_subset': rng.chance(0.3),
             'label_gaps': rng.chance(0.4),
+            'labels_repr': rng.pick(['plain', 'plain', 'array', 'tuple',
+                                     'npint']),
             'nsched': rng.randint(4, 12),
             'fault_tier': self.fault_tier,
             'det_connectivity': None,
@@ -233,8 +235,19 @@ class DeblendMachine(Machine):
                                   relabel=c['relabel'], nproc=nproc,
                                   progress_bar=False)
             return call(finder, st.data, st.threshold)
+        labels = st.labels
+        rep = c.get('labels_repr', 'plain')
+        if isinstance(labels, list) and labels:
+            if rep == 'array':
+                labels = np.array(labels)
+            elif rep == 'tuple':
+                labels = tuple(labels)
+            elif rep == 'npint':
+                labels = [np.int32(x) for x in labels]
+        elif isinstance(labels, int) and rep != 'plain':
+            labels = np.int64(labels)
         return call(deblend_sources, st.data, st.segm, c['npixels'],
-                    labels=st.labels, nlevels=c['nlevels'],
+                    labels=labels, nlevels=c['nlevels'],
                     contrast=c['contrast'], mode=c['mode'],
                     connectivity=c['connectivity'], relabel=c['relabel'],
                     nproc=nproc, progress_bar=False)
